@@ -131,6 +131,19 @@ func init() {
 		for k, c := range alpha {
 			byCode[c] = k
 		}
+		byCode[0xfffd] = "bad"
+		// illegal symbols are rare in the random strings: most strings must stay judged by the full model
+		if len(names) > 4 {
+			keep := names[:0]
+			for _, n := range names {
+				if alpha[n] != 0 && alpha[n] != -100 {
+					keep = append(keep, n)
+				}
+			}
+			names = append(keep, keep...)
+			names = append(names, keep...)
+			names = append(names, "nul", "bad")
+		}
 		rng := rand.New(rand.NewSource(seed))
 		type symErr struct {
 			Cls string `json:"cls"`
@@ -161,7 +174,11 @@ func init() {
 			var sb strings.Builder
 			for j := range syms {
 				syms[j] = names[rng.Intn(len(names))]
-				sb.WriteRune(rune(alpha[syms[j]]))
+				if alpha[syms[j]] == -100 {
+					sb.WriteByte(0xff) // invalid UTF-8
+				} else {
+					sb.WriteRune(rune(alpha[syms[j]]))
+				}
 			}
 			s := sb.String()
 			recs[i] = rec{syms, conv(classifyGlob(actionlint.ValidateRefGlob(s))), conv(classifyGlob(actionlint.ValidatePathGlob(s)))}
